@@ -26,6 +26,6 @@ IsCont(b) == b >= 128 /\ b < 192
 (* longest prefix of at most n bytes that does not end inside a multi-byte UTF-8 sequence *)
 Utf8Prefix(bs, n) == IF Len(bs) <= n THEN bs ELSE
    LET k == CHOOSE k \in 0..n : ~IsCont(bs[k+1]) /\ \A j \in (k+1)..n : IsCont(bs[j+1]) IN SubSeq(bs, 1, k)
-Slice(b, off, n) == SubSeq(b, off + 1, off + n)             \* zero-based offset, may be short at the end
+Slice(b, off, n) == SubSeq(b, off + 1, IF off + n <= Len(b) THEN off + n ELSE Len(b))   \* zero-based offset; short at the end of b
 HasBytes(b, off, n) == Len(b) >= off + n
 =============================================================================
